@@ -790,6 +790,9 @@ pub struct PreparedBody<'a> {
     pub bind_cols: &'a [ColSpec],
     pub pk_indexes: &'a [u16],
     pub result_cols: &'a [ColSpec],
+    /// ScyllaDB's "this is a conditional statement" mark in the prepared metadata flags
+    /// (the bit announced as LWT_OPTIMIZATION_META_BIT_MASK in SUPPORTED).
+    pub lwt_mark: bool,
 }
 
 pub fn body_prepared(p: &PreparedBody) -> Vec<u8> {
@@ -801,7 +804,7 @@ pub fn body_prepared(p: &PreparedBody) -> Vec<u8> {
     }
     // prepared metadata
     let global = cols_share_table(p.bind_cols);
-    w.i32(if global { 1 } else { 0 });
+    w.i32((if global { 1 } else { 0 }) | if p.lwt_mark { i32::MIN } else { 0 });
     w.i32(p.bind_cols.len() as i32);
     w.i32(p.pk_indexes.len() as i32);
     for i in p.pk_indexes {
